@@ -128,6 +128,11 @@ Inductive texpr :=
 | TB2 (amount : Z) (u : tunit)                 (* time_bucket(INTERVAL 'n unit', col) *)
 | TB3 (amount : Z) (u : tunit) (origin_us : Z) (* time_bucket(INTERVAL 'n unit', col, TIMESTAMP 'origin');
                                                   Go's time.Parse accepts a fractional second in every layout *)
+| TB3Off (amount : Z) (u : tunit) (wall_us off_s : Z)
+                                               (* time_bucket(INTERVAL 'n unit', col, TIMESTAMP '<wall clock><+hh:mm>'): an origin
+                                                  with a numeric UTC offset.  None of parseTimeBucketOrigin's layouts has a numeric
+                                                  zone (ArcGen.Params_Rewrites / Obligations.v), so the call is left to DuckDB,
+                                                  whose TIMESTAMP literal ignores the offset *)
 | DT (u : tunit)                               (* date_trunc('unit', col) *)
 | TOpaque.                                     (* a call the regexps leave alone: parenthesised column
                                                   argument, origin outside the five Go layouts, other units *)
@@ -143,6 +148,7 @@ Definition rewrite_texpr (e : texpr) : emitted :=
   | TB3 n u o => let s := interval_to_seconds n u in
                  if negb (o mod MICROS =? 0) then EUnch        (* originTime.Nanosecond() != 0: left to DuckDB *)
                  else if s =? 0 then EUnch else E3 (o / MICROS) (o / MICROS) s s     (* originTime.Unix() *)
+  | TB3Off _ _ _ _ => EUnch
   | DT u => let s := interval_to_seconds 1 u in if s =? 0 then EUnch else E2 s s
   | TOpaque => EUnch
   end.
@@ -158,6 +164,10 @@ Definition eval_orig (e : texpr) (t : Z) : option Z :=
                  | UMonth => None
                  | _ => Some (time_bucket (n * unit_seconds u * MICROS) t o)
                  end
+  | TB3Off n u o _ => match u with
+                      | UMonth => None
+                      | _ => Some (time_bucket (n * unit_seconds u * MICROS) t o)
+                      end
   | DT u => date_trunc u t
   | TOpaque => None
   end.
@@ -750,3 +760,11 @@ Definition lcase_agrees (rows : list row) (c : lcase) : bool :=
   listN_eqb (keep_ids rows (optimize (lc_clause c) (lc_tail c)) 0%N) (lc_rew_ids c).
 
 Definition lcase_oracle (c : lcase) : bool := listN_eqb (lc_orig_ids c) (lc_rew_ids c).
+
+(* ------------------------------------------------------------------------------------ *)
+(* parseTimeBucketOrigin's layout list (regenerated from the source into ArcGen.Params_Rewrites) *)
+(* ------------------------------------------------------------------------------------ *)
+
+(* a Go time layout has a numeric-zone element (-07, -0700, -07:00, Z07, Z0700, Z07:00) or MST *)
+Definition layout_has_zone (l : string) : bool :=
+  containsb (B "-07") (B l) || containsb (B "Z07") (B l) || containsb (B "MST") (B l).
